@@ -36,8 +36,88 @@ type c17Opts struct {
 	OnlyFlagged bool `json:"onlyFlagged"`
 }
 
-// walkColumn explores the cursor graph of UsingColumn for one collection / page size / order / filter.
-func walkColumn(rep *evid.Reporter, ids []int64, pageSize uint64, order bunpaginate.Order, filtered bool, states, transitions *int64) {
+// walkGraph explores the whole cursor graph reachable from the first page: every token handed out (next or previous, at
+// any position, including pages reached by stepping back) is fetched once; each page must be a page of the in-order
+// partition of the collection, next must lead to the following page and previous to the page before.
+func walkGraph(want []int64, pageSize uint64, fetch func(tok string) ([]int64, string, string, bool, error), viol func(kind, why string), states, transitions *int64) bool {
+	var pages [][]int64
+	for i := 0; i < len(want); i += int(pageSize) {
+		j := i + int(pageSize)
+		if j > len(want) {
+			j = len(want)
+		}
+		pages = append(pages, want[i:j])
+	}
+	if len(pages) == 0 {
+		pages = [][]int64{nil}
+	}
+	type node struct {
+		tok  string
+		idx  int
+		path string
+	}
+	short := func(v []int64) string {
+		if len(v) > 12 {
+			return fmt.Sprintf("[%d items %d..%d]", len(v), v[0], v[len(v)-1])
+		}
+		return fmt.Sprint(v)
+	}
+	seen := map[string]bool{"": true}
+	queue := []node{{"", 0, "first"}}
+	limit := 4*len(pages) + 8 // the token space is finite (position x direction); the cap only guards against a runaway graph
+	for fetched := 0; len(queue) > 0 && fetched < limit; fetched++ {
+		n := queue[0]
+		queue = queue[1:]
+		got, next, prev, hasMore, err := fetch(n.tok)
+		atomic.AddInt64(transitions, 1)
+		atomic.AddInt64(states, 1)
+		if err != nil {
+			if _, ok := err.(minidb.ErrUnsupported); ok {
+				return false
+			}
+			viol("error", fmt.Sprintf("page fetch failed at %s: %v", n.path, err))
+			return true
+		}
+		if len(got) > int(pageSize) {
+			viol("page-too-long", fmt.Sprintf("the page at %s holds %d items", n.path, len(got)))
+		}
+		if fmt.Sprint(got) != fmt.Sprint(pages[n.idx]) {
+			kind := "walk"
+			if strings.Contains(n.path, "previous") {
+				kind = "previous"
+			}
+			viol(kind, fmt.Sprintf("the page at %s is %s, page %d of the collection in order is %s", n.path, short(got), n.idx, short(pages[n.idx])))
+			return true
+		}
+		if hasMore != (next != "") {
+			viol("hasmore", "hasMore disagrees with the presence of a next token at "+n.path)
+		}
+		last := n.idx == len(pages)-1
+		if last && next != "" {
+			viol("next-extra", fmt.Sprintf("the last page (%s) still hands out a next token", n.path))
+		}
+		if !last && next == "" {
+			viol("walk", fmt.Sprintf("the page at %s (page %d of %d) hands out no next token: following next stops early", n.path, n.idx, len(pages)))
+		}
+		if n.idx == 0 && prev != "" {
+			viol("previous-first", "the first page (reached by "+n.path+") has a previous token")
+		}
+		if n.idx > 0 && prev == "" {
+			viol("previous-missing", fmt.Sprintf("the page at %s (page %d) has no previous token", n.path, n.idx))
+		}
+		if next != "" && !last && !seen[next] {
+			seen[next] = true
+			queue = append(queue, node{next, n.idx + 1, n.path + ">next"})
+		}
+		if prev != "" && n.idx > 0 && !seen[prev] {
+			seen[prev] = true
+			queue = append(queue, node{prev, n.idx - 1, n.path + ">previous"})
+		}
+	}
+	return true
+}
+
+func c17Table(ids []int64, filtered bool) (*minidb.Table, []int64) {
 	tbl := &minidb.Table{Cols: []string{"id", "flag"}}
 	var want []int64
 	for _, id := range ids {
@@ -47,6 +127,19 @@ func walkColumn(rep *evid.Reporter, ids []int64, pageSize uint64, order bunpagin
 			want = append(want, id)
 		}
 	}
+	return tbl, want
+}
+
+func idsName(ids []int64) string {
+	if len(ids) > 12 {
+		return fmt.Sprintf("%d ids %d..%d", len(ids), ids[0], ids[len(ids)-1])
+	}
+	return fmt.Sprint(ids)
+}
+
+// walkColumn explores the cursor graph of UsingColumn for one collection / page size / order / filter.
+func walkColumn(rep *evid.Reporter, ids []int64, pageSize uint64, order bunpaginate.Order, filtered bool, states, transitions *int64) {
+	tbl, want := c17Table(ids, filtered)
 	if order == bunpaginate.OrderDesc {
 		for i, j := 0, len(want)-1; i < j; i, j = i+1, j-1 {
 			want[i], want[j] = want[j], want[i]
@@ -54,7 +147,24 @@ func walkColumn(rep *evid.Reporter, ids []int64, pageSize uint64, order bunpagin
 	}
 	db := bun.NewDB(minidb.Open(tbl), pgdialect.New())
 	defer db.Close()
-	fetch := func(q bunpaginate.ColumnPaginatedQuery[c17Opts]) ([]int64, string, string, bool, error) {
+	name := fmt.Sprintf("column ids=%s page=%d order=%v filtered=%v", idsName(ids), pageSize, order, filtered)
+	replay := map[string]interface{}{"engine": "cursorwalk", "kind": "column", "n": len(ids), "first": firstOf(ids), "last": lastOf(ids), "pageSize": pageSize, "order": int(order), "filtered": filtered}
+	viol := func(kind, why string) {
+		rep.Violation("column-"+kind, why+" ["+name+"]", replay)
+	}
+	first := bunpaginate.ColumnPaginatedQuery[c17Opts]{PageSize: pageSize, Column: "id", Order: order, Options: c17Opts{OnlyFlagged: filtered}}
+	fetch := func(tok string) ([]int64, string, string, bool, error) {
+		q := first
+		if tok != "" {
+			var nq bunpaginate.ColumnPaginatedQuery[c17Opts]
+			if err := bunpaginate.UnmarshalCursor(tok, &nq); err != nil {
+				return nil, "", "", false, fmt.Errorf("the server's own token is not accepted back: %w", err)
+			}
+			if nq.Options != first.Options || nq.PageSize != first.PageSize || nq.Order != first.Order || nq.Column != first.Column {
+				viol("token-query", "a token stands for a different query")
+			}
+			q = nq
+		}
 		sb := db.NewSelect().Table("items").Column("id", "flag")
 		if q.Options.OnlyFlagged {
 			sb = sb.Where("flag = 1")
@@ -69,92 +179,44 @@ func walkColumn(rep *evid.Reporter, ids []int64, pageSize uint64, order bunpagin
 		}
 		return got, cur.Next, cur.Previous, cur.HasMore, nil
 	}
-	name := fmt.Sprintf("column ids=%v page=%d order=%v filtered=%v", ids, pageSize, order, filtered)
-	replay := map[string]interface{}{"engine": "cursorwalk", "kind": "column", "ids": ids, "pageSize": pageSize, "order": int(order), "filtered": filtered}
-	viol := func(kind, why string) {
-		rep.Violation("column-"+kind, why+" ["+name+"]", replay)
-	}
-	q := bunpaginate.ColumnPaginatedQuery[c17Opts]{PageSize: pageSize, Column: "id", Order: order, Options: c17Opts{OnlyFlagged: filtered}}
-	var pages [][]int64
-	var all []int64
-	var prevTokens []string
-	for step := 0; step < len(ids)+3; step++ {
-		got, next, prev, hasMore, err := fetch(q)
-		atomic.AddInt64(transitions, 1)
-		atomic.AddInt64(states, 1)
-		if err != nil {
-			if _, ok := err.(minidb.ErrUnsupported); ok {
-				rep.Undecide("minidb cannot execute: " + err.Error())
-				return
-			}
-			viol("error", "page fetch failed: "+err.Error())
-			return
-		}
-		pages = append(pages, got)
-		prevTokens = append(prevTokens, prev)
-		all = append(all, got...)
-		if len(got) > int(pageSize) {
-			viol("page-too-long", fmt.Sprintf("page %d holds %d items", step, len(got)))
-		}
-		if hasMore != (next != "") {
-			viol("hasmore", "hasMore disagrees with the presence of a next token")
-		}
-		if !hasMore {
-			break
-		}
-		var nq bunpaginate.ColumnPaginatedQuery[c17Opts]
-		if err := bunpaginate.UnmarshalCursor(next, &nq); err != nil {
-			viol("token", "the server's own next token is not accepted back: "+err.Error())
-			return
-		}
-		if nq.Options != q.Options || nq.PageSize != q.PageSize || nq.Order != q.Order {
-			viol("token-query", "the next token stands for a different query")
-		}
-		q = nq
-	}
-	if fmt.Sprint(all) != fmt.Sprint(want) {
-		viol("walk", fmt.Sprintf("following next yields %v, the collection in order is %v", all, want))
-		return
-	}
-	// previous of page k+1 yields page k
-	for k := 1; k < len(pages); k++ {
-		if prevTokens[k] == "" {
-			viol("previous-missing", fmt.Sprintf("page %d has no previous token", k))
-			continue
-		}
-		var pq bunpaginate.ColumnPaginatedQuery[c17Opts]
-		if err := bunpaginate.UnmarshalCursor(prevTokens[k], &pq); err != nil {
-			viol("token", "previous token not accepted back: "+err.Error())
-			continue
-		}
-		got, _, _, _, err := fetch(pq)
-		atomic.AddInt64(transitions, 1)
-		if err != nil {
-			viol("error", "previous page fetch failed: "+err.Error())
-			continue
-		}
-		if fmt.Sprint(got) != fmt.Sprint(pages[k-1]) {
-			viol("previous", fmt.Sprintf("previous of page %d yields %v, the page before is %v", k, got, pages[k-1]))
-		}
-	}
-	if len(pages) > 0 && prevTokens[0] != "" {
-		viol("previous-first", "the first page has a previous token")
+	if !walkGraph(want, pageSize, fetch, viol, states, transitions) {
+		rep.Undecide("minidb cannot execute a statement of " + name)
 	}
 }
 
-func walkOffset(rep *evid.Reporter, ids []int64, pageSize uint64, filtered bool, states, transitions *int64) {
-	tbl := &minidb.Table{Cols: []string{"id", "flag"}}
-	var want []int64
-	for _, id := range ids {
-		flag := id % 2
-		tbl.Rows = append(tbl.Rows, minidb.Row{"id": id, "flag": flag})
-		if !filtered || flag == 1 {
-			want = append(want, id)
-		}
+func firstOf(v []int64) int64 {
+	if len(v) == 0 {
+		return 0
 	}
+	return v[0]
+}
+func lastOf(v []int64) int64 {
+	if len(v) == 0 {
+		return 0
+	}
+	return v[len(v)-1]
+}
+
+func walkOffset(rep *evid.Reporter, ids []int64, pageSize uint64, filtered bool, states, transitions *int64) {
+	tbl, want := c17Table(ids, filtered)
 	db := bun.NewDB(minidb.Open(tbl), pgdialect.New())
 	defer db.Close()
-	fetch := func(q bunpaginate.OffsetPaginatedQuery[c17Opts]) ([]int64, string, string, bool, error) {
+	name := fmt.Sprintf("offset ids=%s page=%d filtered=%v", idsName(ids), pageSize, filtered)
+	replay := map[string]interface{}{"engine": "cursorwalk", "kind": "offset", "n": len(ids), "first": firstOf(ids), "last": lastOf(ids), "pageSize": pageSize, "filtered": filtered}
+	viol := func(kind, why string) { rep.Violation("offset-"+kind, why+" ["+name+"]", replay) }
+	first := bunpaginate.OffsetPaginatedQuery[c17Opts]{PageSize: pageSize, Options: c17Opts{OnlyFlagged: filtered}}
+	fetch := func(tok string) ([]int64, string, string, bool, error) {
+		q := first
+		if tok != "" {
+			var nq bunpaginate.OffsetPaginatedQuery[c17Opts]
+			if err := bunpaginate.UnmarshalCursor(tok, &nq); err != nil {
+				return nil, "", "", false, fmt.Errorf("the server's own token is not accepted back: %w", err)
+			}
+			if nq.Options != first.Options || nq.PageSize != first.PageSize {
+				viol("token-query", "a token stands for a different query")
+			}
+			q = nq
+		}
 		sb := db.NewSelect().Table("items").Column("id", "flag").OrderExpr("id ASC")
 		if q.Options.OnlyFlagged {
 			sb = sb.Where("flag = 1")
@@ -169,60 +231,8 @@ func walkOffset(rep *evid.Reporter, ids []int64, pageSize uint64, filtered bool,
 		}
 		return got, cur.Next, cur.Previous, cur.HasMore, nil
 	}
-	name := fmt.Sprintf("offset ids=%v page=%d filtered=%v", ids, pageSize, filtered)
-	replay := map[string]interface{}{"engine": "cursorwalk", "kind": "offset", "ids": ids, "pageSize": pageSize, "filtered": filtered}
-	viol := func(kind, why string) { rep.Violation("offset-"+kind, why+" ["+name+"]", replay) }
-	q := bunpaginate.OffsetPaginatedQuery[c17Opts]{PageSize: pageSize, Options: c17Opts{OnlyFlagged: filtered}}
-	var pages [][]int64
-	var prevTokens []string
-	var all []int64
-	for step := 0; step < len(ids)+3; step++ {
-		got, next, prev, hasMore, err := fetch(q)
-		atomic.AddInt64(transitions, 1)
-		atomic.AddInt64(states, 1)
-		if err != nil {
-			if _, ok := err.(minidb.ErrUnsupported); ok {
-				rep.Undecide("minidb cannot execute: " + err.Error())
-				return
-			}
-			viol("error", err.Error())
-			return
-		}
-		pages = append(pages, got)
-		prevTokens = append(prevTokens, prev)
-		all = append(all, got...)
-		if hasMore != (next != "") {
-			viol("hasmore", "hasMore disagrees with the presence of a next token")
-		}
-		if !hasMore {
-			break
-		}
-		var nq bunpaginate.OffsetPaginatedQuery[c17Opts]
-		if err := bunpaginate.UnmarshalCursor(next, &nq); err != nil {
-			viol("token", "next token not accepted back: "+err.Error())
-			return
-		}
-		q = nq
-	}
-	if fmt.Sprint(all) != fmt.Sprint(want) {
-		viol("walk", fmt.Sprintf("following next yields %v, the collection in order is %v", all, want))
-		return
-	}
-	for k := 1; k < len(pages); k++ {
-		var pq bunpaginate.OffsetPaginatedQuery[c17Opts]
-		if prevTokens[k] == "" {
-			viol("previous-missing", fmt.Sprintf("page %d has no previous token", k))
-			continue
-		}
-		if err := bunpaginate.UnmarshalCursor(prevTokens[k], &pq); err != nil {
-			viol("token", err.Error())
-			continue
-		}
-		got, _, _, _, err := fetch(pq)
-		atomic.AddInt64(transitions, 1)
-		if err == nil && fmt.Sprint(got) != fmt.Sprint(pages[k-1]) {
-			viol("previous", fmt.Sprintf("previous of page %d yields %v, the page before is %v", k, got, pages[k-1]))
-		}
+	if !walkGraph(want, pageSize, fetch, viol, states, transitions) {
+		rep.Undecide("minidb cannot execute a statement of " + name)
 	}
 }
 
@@ -417,6 +427,24 @@ func c17() int {
 			}
 		}
 	}
+	// page sizes around every constant of the page-size logic (default 15, bunpaginate.MaxPageSize 100, the v1 API's 1000)
+	// with collections just below / at / above one, two and three pages
+	bigPages := []uint64{15, 16, 99, 100, 101, 1000}
+	if rep.Thorough() {
+		bigPages = []uint64{14, 15, 16, 50, 99, 100, 101, 102, 250, 999, 1000}
+	}
+	nSmall := len(jobs)
+	for _, page := range bigPages {
+		for _, n := range []int{int(page) - 1, int(page), int(page) + 1, 2*int(page) - 1, 2 * int(page), 2*int(page) + 1, 3*int(page) + 1} {
+			ids := make([]int64, n)
+			for i := range ids {
+				ids[i] = int64(2*i + 1 + i%2) // gaps, both parities
+			}
+			for _, filtered := range []bool{false, true} {
+				jobs = append(jobs, job{ids, page, bunpaginate.OrderAsc, filtered, false}, job{ids, page, bunpaginate.OrderDesc, filtered, false}, job{ids, page, 0, filtered, true})
+			}
+		}
+	}
 	evid.ParallelFor(len(jobs), workers(), func(w, i int) {
 		j := jobs[i]
 		if j.offset {
@@ -437,9 +465,9 @@ func c17() int {
 		"states":                        int(states),
 		"transitions":                   int(transitions),
 		"traces_validated_against_impl": len(jobs) + int(tokenEvals),
-		"samples":                       []interface{}{fmt.Sprintf("%+v", jobs[len(jobs)/2]), fmt.Sprintf("%+v", jobs[len(jobs)-1])},
+		"samples":                       []interface{}{fmt.Sprintf("%+v", jobs[nSmall/2]), fmt.Sprintf("%+v", jobs[nSmall-1]), fmt.Sprintf("page=%d n=%d offset=%v", jobs[len(jobs)-1].page, len(jobs[len(jobs)-1].ids), jobs[len(jobs)-1].offset)},
 		"exhaustive":                    true,
-		"rule":                          fmt.Sprintf("cursor-graph walk of bunpaginate.UsingColumn / UsingOffset over an in-memory table (minidb executes the SQL they emit): collection sizes 0..%d (ids with gaps and dense) x page sizes 1..%d x both orders x with/without a filter = %d walks; states = pages reached, transitions = page fetches (next and previous); plus %d cursor tokens of filtered store listings (every filter expression to depth 2 over the keys of transactions / accounts / logs, PIT on/off) decoded and compared by the SQL they issue, directly and through GET ?cursor=; plus store-level walks: the real GetTransactions / GetAccountsWithVolumes / GetLogs executed on pgmini over ledgers of 0..%d transactions x every page size x with/without a metadata filter", maxN, maxN+1, len(jobs), tokenEvals, storeN),
+		"rule":                          fmt.Sprintf("cursor-graph walk of bunpaginate.UsingColumn / UsingOffset over an in-memory table (minidb executes the SQL they emit): collection sizes 0..%d (ids with gaps and dense) x page sizes 1..%d x both orders x with/without a filter = %d walks, plus %d walks with page sizes %v over collections of p-1, p, p+1, 2p-1, 2p, 2p+1, 3p+1 items; every walk is a breadth-first exploration of the whole cursor graph (each next and previous token handed out at any position is followed once), states = pages reached, transitions = page fetches; plus %d cursor tokens of filtered store listings (every filter expression to depth 2 over the keys of transactions / accounts / logs, PIT on/off) decoded and compared by the SQL they issue, directly and through GET ?cursor=; plus store-level walks: the real GetTransactions / GetAccountsWithVolumes / GetLogs executed on pgmini over ledgers of 0..%d transactions x every page size x with/without a metadata filter", maxN, maxN+1, nSmall, len(jobs)-nSmall, bigPages, tokenEvals, storeN),
 		"walks":                         len(jobs),
 		"store_level_walks":             storeWalks,
 		"store_level_fetches":           storeFetches,
